@@ -229,7 +229,7 @@ def replay(case, rec):
 
 
 def units(tier, seed):
-    n = 800 if tier == "quick" else 6000
+    n = 800 if tier == "quick" else 15000
     u = [{"name": "enum-evtgen", "kind": "enum"}, {"name": "enum-pdg", "kind": "enum"}]
     u += [{"name": f"hyp-fs{k:02d}", "kind": "fs", "n": n} for k in range(10)]
     u += [{"name": f"hyp-cdecay{k:02d}", "kind": "cdecay", "n": max(60, n // 4)} for k in range(4)]
